@@ -13,9 +13,21 @@ Definition quiet (cpp : bool) (r : nat) (b : list ptok) (a : nat) (rest : list p
 Definition cont cpp rec n0 n r d z :=
   match lpn cpp rec r n z with Some z' => climb cpp rec n0 (S r) (d - r) z' | None => None end.
 
-(* position where an operand is expected: the previous token is ( [ { ; ? : , . or an operator *)
+(* position where an operand is expected: the previous token is ( [ { ; ? : , . or an operator; if it is a
+   (prefix) ++/-- then that one stands at such a position itself *)
 Definition opos (b : list ptok) : Prop :=
-  match b with [] => True | p :: _ => prefix_ctx (snd p) = true /\ is_incdec (snd p) = false end.
+  match b with
+  | [] => True
+  | p :: b' => prefix_ctx (snd p) = true /\
+               (is_incdec (snd p) = true -> match b' with [] => True | pp :: _ => prefix_ctx (snd pp) = true end)
+  end.
+
+(* after a prefix ++/-- the operand must not start with + - ! ~ & (isPrefixUnary would not see a prefix
+   operator there; such operands are never lvalues: excluded by [wf]) *)
+Definition bad_after_incdec (t : tok) : bool :=
+  match t with TOp OPlus | TOp OMinus | TOp ONot | TOp OTilde | TOp OAmp => true | _ => false end.
+Definition pstart (b ts : list ptok) : Prop :=
+  hd_is is_incdec b = true -> hd_is bad_after_incdec ts = false.
 
 Definition nojux (rest : list ptok) : Prop := hd_is is_name rest = false.
 
@@ -211,4 +223,76 @@ Proof.
   change ((l, TLP) :: (l, TType ty) :: (l, TRP) :: wrap (Nat.ltb (prec e) P_PRE) (rootlab e) (render e))
     with (((l, TLP) :: [(l, TType ty)] ++ [(l, TRP)]) ++ wrap (Nat.ltb (prec e) P_PRE) (rootlab e) (render e)).
   apply bal_app; [apply bal_paren; apply bal_one; exact I|apply bal_wrap; assumption].
+Qed.
+
+(* ---------- prefix operators *)
+Lemma prefix_ok : forall b l o,
+  opos b -> pstart b [(l, TOp (pre_opr o))] -> is_prefix_unary b (TOp (pre_opr o)) = true.
+Proof.
+  intros [|p b'] l o Ho Hp; [reflexivity|]. destruct Ho as [Hc Hi]. unfold pstart in Hp. cbn [hd_is snd] in Hp.
+  unfold is_prefix_unary. rewrite Hc. destruct (is_incdec (snd p)) eqn:E.
+  - specialize (Hp eq_refl). specialize (Hi eq_refl).
+    destruct o; cbn in Hp; try discriminate; cbn; try reflexivity.
+    destruct b' as [|pp b'']; [reflexivity|]. rewrite Hi. reflexivity.
+  - reflexivity.
+Qed.
+
+Lemma opos_after_op : forall b l o, opos b -> opos ((l, TOp o) :: b).
+Proof.
+  intros b l o H. split; [reflexivity|]. intros _. destruct b as [|pp b']; [exact I|]. apply H.
+Qed.
+
+Lemma quiet_p3_aft : forall cpp b a rest, aft b -> quiet cpp 1 b a rest.
+Proof.
+  intros cpp b a rest Ha rec n k dp. cbn [lpn loop_at p3_loop]. destruct rest as [|t r]; [reflexivity|].
+  cbn [bef]. rewrite (not_prefix_after b _ Ha), andb_false_r. reflexivity.
+Qed.
+
+(* what an operand starts with: a run of * and & and then a name, number, '(' or another prefix operator *)
+Fixpoint lead_ok (l : list ptok) : bool :=
+  match l with
+  | t :: r => match snd t with
+              | TOp OStar | TOp OAmp => lead_ok r
+              | TId _ | TNum _ | TLP | TOp OPlus | TOp OMinus | TOp ONot | TOp OTilde | TOp OInc | TOp ODec => true
+              | _ => false
+              end
+  | [] => false
+  end.
+
+Lemma lead_ok_app : forall l r, lead_ok l = true -> lead_ok (l ++ r) = true.
+Proof.
+  induction l; intros r H; [discriminate|]. cbn [app lead_ok] in *.
+  destruct (snd a); try discriminate; try reflexivity. destruct o; try discriminate; try reflexivity; apply IHl; exact H.
+Qed.
+
+Lemma lead_not_qualifier : forall l, lead_ok l = true -> is_qualifier l = false.
+Proof.
+  induction l; intros H; [reflexivity|]. destruct a as [x k]. cbn [lead_ok snd] in H. cbn [is_qualifier].
+  destruct k; try discriminate; try reflexivity. destruct o; try discriminate; try reflexivity; apply IHl; exact H.
+Qed.
+
+Lemma lead_skip_stars : forall l acc, lead_ok l = true ->
+  hd_is is_gt_rp_comma (snd (skip_stars acc l)) = false.
+Proof.
+  induction l; intros acc H; [discriminate|]. cbn [skip_stars].
+  destruct l as [|a2 l'].
+  - cbn [snd hd_is]. cbn [lead_ok] in H. destruct (snd a); try discriminate; try reflexivity.
+    destruct o; try discriminate; reflexivity.
+  - destruct (is_star (snd a)) eqn:E.
+    + apply IHl. cbn [lead_ok] in H. destruct (snd a); try discriminate. destruct o; try discriminate. exact H.
+    + cbn [snd hd_is]. cbn [lead_ok] in H. destruct (snd a); try discriminate; try reflexivity.
+      destruct o; try discriminate; reflexivity.
+Qed.
+
+Lemma lead_not_comma_rp : forall l, lead_ok l = true -> hd_is is_comma_rp l = false.
+Proof.
+  intros [|t r] H; [reflexivity|]. cbn [lead_ok hd_is] in *. destruct (snd t); try discriminate; try reflexivity.
+Qed.
+
+Lemma star_jump_none : forall s t r, lead_ok r = true -> star_jump (s, t :: r) = None.
+Proof.
+  intros s t r H. unfold star_jump.
+  destruct (is_star (snd t) && hd_is (fun x => is_star x || is_comma_rp x) r); [|reflexivity].
+  pose proof (lead_skip_stars r [] H) as Hs. destruct (skip_stars [] r) as [acc r']. cbn [snd] in Hs.
+  rewrite Hs. reflexivity.
 Qed.
